@@ -293,7 +293,7 @@ long long int_value(uint32_t i) {
 }
 double dbl_value(uint32_t i) {
     static const double T[] = {0.0, 1.0, -1.0, 1.5, -2.25, 3.14159, 16384.0, 0.0234, 1e10, 1e-5, 123456789.125, -0.5e-7, 99999.5,
-                               1e14, -1e14, 2.5e-300, 1.0 / 3.0, __builtin_inf(), -__builtin_inf(), __builtin_nan("")};
+                               1e14, -1e14, 2.5e-300, 1.0 / 3.0, __builtin_inf(), -__builtin_inf(), __builtin_nan(""), -__builtin_nan("")};
     return T[i % (sizeof T / sizeof T[0])];
 }
 std::string latin1_ref(const std::string &b) {
